@@ -327,7 +327,18 @@ func runEntry(c decCase) (bool, string) {
 		if !ok {
 			return false, ""
 		}
-		return guarded(c.Entry, c.Input, func(b []byte) bool {
+		// "in time linear in the input": a number token is a few bytes however large the number it denotes; a decoder that
+		// materialises the number (10^1000000 as an integer) does work that the input length does not bound. Measured as
+		// allocation (deterministic, unlike time) whenever the input has an exponent; the ceiling is 2 MiB + 1 KiB per
+		// input byte, three orders of magnitude above what the decoders need
+		var grew uint64
+		measure := bytes.ContainsAny(c.Input, "eE")
+		reached, v := guarded(c.Entry, c.Input, func(b []byte) bool {
+			var m0, m1 runtime.MemStats
+			if measure {
+				runtime.ReadMemStats(&m0)
+				defer func() { runtime.ReadMemStats(&m1); grew = m1.TotalAlloc - m0.TotalAlloc }()
+			}
 			v := mkv()
 			if err := json.Unmarshal(b, v); err != nil {
 				return json.Valid(b) // valid JSON reached the type's own decoders
@@ -335,6 +346,10 @@ func runEntry(c decCase) (bool, string) {
 			_, _ = json.Marshal(v)
 			return true
 		})
+		if v == "" && grew > 2<<20+1024*uint64(len(c.Input)) {
+			v = fmt.Sprintf("%s: decoding the %d byte input %s allocates %d bytes (work not bounded by the input length)", c.Entry, len(c.Input), c.Input, grew)
+		}
+		return reached, v
 	case strings.HasPrefix(c.Entry, "text:"):
 		mkv, ok := textTypes[strings.TrimPrefix(c.Entry, "text:")]
 		if !ok {
@@ -577,12 +592,28 @@ func genBackend(t *rapid.T) decCase {
 		case "HEXBytes", "ISO8601Time", "Frequency", "Percentage":
 			b, _ := json.Marshal(genJSONValue(t, 3))
 			c.Input = b
+			if rapid.IntRange(0, 3).Draw(t, "bignum") == 0 {
+				c.Input = []byte(rapid.SampledFrom(hostileNumbers).Draw(t, "num"))
+			}
 		default:
 			b, _ := json.Marshal(genJSONObject(t, 0, memberNames(backendTypes[name]())))
 			if rapid.IntRange(0, 9).Draw(t, "rawjson") == 0 {
 				b = mutate(t, b)
 			}
 			c.Input = b
+			if rapid.IntRange(0, 9).Draw(t, "bignum") == 0 {
+				// every member a number token that is short to write and huge (or tiny) to evaluate
+				var sb strings.Builder
+				sb.WriteByte('{')
+				for i, m := range memberNames(backendTypes[name]()) {
+					if i > 0 {
+						sb.WriteByte(',')
+					}
+					fmt.Fprintf(&sb, "%q:%s", m, rapid.SampledFrom(hostileNumbers).Draw(t, "num"))
+				}
+				sb.WriteByte('}')
+				c.Input = []byte(sb.String())
+			}
 		}
 		return c
 	case kind <= 7:
@@ -611,6 +642,10 @@ func genBackend(t *rapid.T) decCase {
 		return decCase{Entry: "scan:" + name, Input: hostileBytes(t, "raw", 20)}
 	}
 }
+
+// JSON number tokens of a few bytes that denote numbers of a million digits
+var hostileNumbers = []string{"1e1000000", "1e-1000000", "-1e1000000", "1E400", "1e999999999", "9e-999999999", "1e+308", "4.9e-324",
+	"123456789012345678901234567890", "0.000000000000000000000000000001", "1.5e300000", "25e-2000000", "1e2147483648", "1e-2147483649"}
 
 // hostile constants named in the design: inputs whose index arithmetic is most likely to be off
 func hostileCorpus() []decCase {
@@ -734,7 +769,7 @@ func TestProp(t *testing.T) {
 		4000, 100000, genGrow, checkGrow)
 
 	evid.Rapid(r, t, "backend-json-text",
-		"rapid: json.Unmarshal into each of the backend payload structs and scalar types from generated JSON objects that use the structs' own member names with hostile values (null, wrong types, 1e400, odd-length / non-hex / huge strings, impossible timestamps, nested arrays/objects), occasionally mutated at byte level; UnmarshalText of EUI64/DevAddr/NetID/AES128Key/DLSettings/HEXBytes/ISO8601Time/PHYPayload on hostile strings; Scan on arbitrary bytes, strings and nil. Same oracle. Non-trivial: syntactically valid JSON / accepted text.",
+		"rapid: json.Unmarshal into each of the backend payload structs and scalar types from generated JSON objects that use the structs' own member names with hostile values (null, wrong types, 1e400, odd-length / non-hex / huge strings, impossible timestamps, nested arrays/objects), occasionally mutated at byte level, and number tokens that are short to write and huge to evaluate (1e1000000, 9e-999999999, ...; for these the allocation of the decode must stay below 2 MiB + 1 KiB per input byte: work bounded by the input length); UnmarshalText of EUI64/DevAddr/NetID/AES128Key/DLSettings/HEXBytes/ISO8601Time/PHYPayload on hostile strings; Scan on arbitrary bytes, strings and nil. Same oracle. Non-trivial: syntactically valid JSON / accepted text.",
 		150000, 6000000, genBackend, checkDec)
 }
 
